@@ -250,13 +250,20 @@ func (ap *accountPool) rebuild(detailed *nom.DetailedMomentum) error {
 		log.Debug("staring applying blocks", "num-uncommitted", len(uncommitted))
 		manager := db.NewMemDBManager(ap.stable.GetStableAccountDB(address))
 		for _, block := range uncommitted {
+			// batched blocks are re-applied together with the contract-receive block they belong to
+			if block.BlockType == nom.BlockTypeContractSend {
+				continue
+			}
 			patch := oldManager.GetPatch(block.Identifier())
 			err := manager.Add(&nom.AccountBlockTransaction{
 				Block:   block,
 				Changes: patch,
 			})
 			if err != nil {
-				return errors.Errorf("account pool rebuild error. Unable to re-apply block %v. Reason %v", block.Header(), err)
+				// the block no longer links to the confirmed chain; drop it and everything on top of it,
+				// but keep rebuilding the other accounts
+				log.Info("account pool rebuild. Unable to re-apply block", "header", block.Header(), "reason", err)
+				break
 			}
 		}
 		ap.managers[address] = manager
